@@ -250,16 +250,18 @@ def report_miri_violation(prop, seed, v):
 
 #          prop: [(target, quick families, thorough families, rustflags_extra, extra miri flags)]
 MIRI_PLAN = {
-    "C05": [("x86_64", 48, 1600, "", ""), ("aarch64", 48, 1600, "", ""),
-            ("x86_64", 0, 800, "-Ctarget-feature=+avx2", ""), ("i686", 0, 600, "", ""), ("s390x", 0, 600, "", "")],
-    "C06": [("aarch64", 16, 800, "", ""), ("s390x", 32, 800, "", ""), ("i686", 0, 400, "", "")],
-    "C07": [("aarch64", 24, 800, "", ""), ("s390x", 8, 400, "", ""), ("x86_64", 0, 400, "-Ctarget-feature=+avx2", "")],
-    "C08": [("s390x", 0, 400, "", "")],
-    "C14": [("i686", 32, 800, "", ""), ("s390x", 0, 800, "", ""), ("aarch64", 0, 800, "", "")],
-    "C15": [("x86_64", 64, 2048, "", "-Zmiri-preemption-rate=0.1"),
-            ("aarch64", 0, 1024, "", "-Zmiri-preemption-rate=0.1"),
-            ("x86_64", 0, 1024, "-Ctarget-feature=+avx2", "-Zmiri-preemption-rate=0.1")],
-    "C16": [("x86_64", 16, 800, "", "")],
+    "C05": [("x86_64", 128, 3200, "", ""), ("aarch64", 128, 3200, "", ""),
+            ("x86_64", 48, 1600, "-Ctarget-feature=+avx2", ""), ("i686", 0, 1200, "", ""), ("s390x", 0, 1200, "", "")],
+    "C06": [("aarch64", 96, 1600, "", ""), ("s390x", 96, 1600, "", ""), ("i686", 0, 800, "", "")],
+    "C07": [("aarch64", 96, 1600, "", ""), ("s390x", 48, 800, "", ""),
+            ("x86_64", 0, 800, "-Ctarget-feature=+avx2", "")],
+    "C08": [("aarch64", 48, 1200, "", ""), ("s390x", 32, 800, "", "")],
+    "C10": [("aarch64", 32, 800, "", ""), ("i686", 0, 400, "", "")],
+    "C14": [("i686", 96, 1600, "", ""), ("s390x", 48, 1600, "", ""), ("aarch64", 0, 1600, "", "")],
+    "C15": [("x86_64", 128, 4096, "", "-Zmiri-preemption-rate=0.1"),
+            ("aarch64", 0, 2048, "", "-Zmiri-preemption-rate=0.1"),
+            ("x86_64", 0, 2048, "-Ctarget-feature=+avx2", "-Zmiri-preemption-rate=0.1")],
+    "C16": [("x86_64", 64, 1600, "", "")],
 }
 
 
@@ -276,9 +278,9 @@ def extra_substrates(prop, tier, seed, t0):
         n = q if tier == "quick" else t
         if n <= 0:
             continue
-        per = 3 if tier == "quick" else 10
+        per = max(2, (n + D.NCPU - 1) // D.NCPU) if tier == "quick" else 25
         if prop == "C15":
-            per = 2 if tier == "quick" else 4
+            per = max(2, (n + 2 * D.NCPU - 1) // (2 * D.NCPU)) if tier == "quick" else 16
         r = run_miri(prop, target, seed, 0, n, D.NCPU, per, miri_seed_base=seed * 1000, extra_flags=xf,
                      rustflags_extra=rf)
         runs.append({"target": TARGETS[target] + (" +avx2" if rf else ""), "families": r["families"],
@@ -325,12 +327,12 @@ def c09_cross_process(tier, seed):
                 path = D.flavour_replay_file("C09", seed, bad[0], flavour)
                 return {"violation": {"replay": path, "text": "result log of family %d differs between native dbg and "
                                       "native %s builds" % (bad[0], flavour)}, "coverage": cov}
-    plan = [("aarch64", 32, 1600), ("s390x", 32, 1600), ("i686", 0, 1600), ("x86_64", 0, 1600)]
+    plan = [("aarch64", 64, 1600), ("s390x", 64, 1600), ("i686", 0, 1600), ("x86_64", 0, 1600)]
     for target, q, t in plan:
         n = q if tier == "quick" else t
         if n <= 0:
             continue
-        r = run_miri("C09", target, seed, 0, n, D.NCPU, 2 if tier == "quick" else 10, miri_seed_base=seed * 1000,
+        r = run_miri("C09", target, seed, 0, n, D.NCPU, 4 if tier == "quick" else 25, miri_seed_base=seed * 1000,
                      portable=True, want_hashes=True)
         cov["cross_process"].append({"configuration": "Miri " + TARGETS[target], "families": r["families"],
                                      "operations": r["ops"], "wall_s": round(r["wall"], 1)})
